@@ -386,4 +386,5 @@ func c02r8(c *Ctx, r *Report) {
 		}
 	}
 	r.floor("normalizeRune applied to characters of the line", n, 8)
+	c02r9(c, r)
 }
